@@ -398,7 +398,18 @@ func sortedKeys(m map[string]int) []string {
 // adversarial user keys: contain '@', bytes below '@', shared prefixes, look like versioned keys
 var userKeys = []string{"a", "b", "a@1", "a!", "ab", "k@10", "k@9", "k", "z", "a@", "@", "a@b@7", "\x00", "a\x00", "~", "aa", "k@009", "user:1"}
 
+// pairs of keys whose 64-bit murmur3 hashes (utils.Hash) agree in the low / the high 32 bits: whatever fingerprint of a key
+// the engine may keep instead of the key, these collide in it sooner than others
+var collidingKeys = [][2]string{{"acct-54031", "acct-134332"}, {"acct-125260", "acct-147298"}, {"acct-18568", "acct-150543"},
+	{"acct-30211", "acct-81225"}, {"acct-31162", "acct-82408"}, {"acct-90969", "acct-104726"}}
+
+// caseKeys, when set, replaces the front of the key universe for the case being generated
+var caseKeys []string
+
 func pickKey(r *rand.Rand, n int) string {
+	if len(caseKeys) > 0 && r.Intn(5) > 0 {
+		return caseKeys[r.Intn(len(caseKeys))]
+	}
 	if n > len(userKeys) {
 		n = len(userKeys)
 	}
